@@ -21,6 +21,8 @@ def key_of(ev, tag):
         extra = " len=%d" % len(ev["content"])
     if ev["op"] == "addchecksum":
         return "twooffive.AddCheckSum why=%s" % tag
+    if ev["op"] == "eansweep":
+        return "ean sweep why=%s" % tag
     return "%s %s p=%s%s why=%s" % (ev.get("sym"), base_api(ev.get("api", "")), ",".join(map(str, ev.get("p", []))), extra, tag)
 
 
